@@ -15,8 +15,8 @@
   * `Fiber.fromRandom` (fiber.py:437-522) as a function of the recorded draws.
 
   Everything is Mathlib-free and executable.  The YAML *text* layer is not modelled:
-  it is abstracted as "identity on dictionaries without tuples, failure on
-  dictionaries with tuples" (what `yaml.dump` + `yaml.safe_load` do today).
+  it is abstracted as the identity on dictionaries (what `yaml.dump` + the tuple-aware
+  safe loader do for the values that occur: ints, floats, strings, lists, tuples).
 -/
 import FtModel.Basic
 import FtModel.Coiter
@@ -269,47 +269,50 @@ structure TRep (κ ν : Type) (d : Nat) where
   shape   : List κ
   name    : String
   root    : Tree κ ν d
+  /-- the leaf rank's default (meaningless for a rank-0 tensor, which has no rank) -/
+  dflt    : ν
 
 structure TDict (κ ν : Type) (d : Nat) where
   rankIds : List String
   shape   : List κ
   name    : String
   root    : YDict κ ν d
+  /-- the "default" entry; a rank-0 tensor has none -/
+  dflt    : Option ν
 
 section Yaml
 variable {κ ν : Type}
 
-/-- `Tensor.dump`: the dictionary handed to `yaml.dump` -/
+/-- `Tensor.dump`: the dictionary handed to `yaml.dump`; the "default" entry is written
+    for tensors of rank ≥ 1 -/
 def tensorDump {d : Nat} (t : TRep κ ν d) : TDict κ ν d :=
-  { rankIds := t.rankIds, shape := t.shape, name := t.name, root := fiber2dict d t.root }
+  { rankIds := t.rankIds, shape := t.shape, name := t.name, root := fiber2dict d t.root,
+    dflt := (if d = 0 then none else some t.dflt) }
 
-/-- ABSTRACTION of `yaml.dump` followed by `yaml.safe_load` (the text layer is not
-    modelled): identity when no tuple occurs, failure (`exit(1)`) otherwise. -/
-def yamlText {d : Nat} (plain : κ → Bool) (x : TDict κ ν d) (coordsPlain : Bool) : Option (TDict κ ν d) :=
-  if coordsPlain && x.shape.all plain then some x else none
+/-- ABSTRACTION of `yaml.dump` followed by `yaml.load(…, Loader=FibertreeLoader)` (the text
+    layer is not modelled): identity — ints, floats, strings, lists and, through the loader's
+    tuple constructor, (nested) tuples all come back as they were written. -/
+def yamlText {d : Nat} (x : TDict κ ν d) : Option (TDict κ ν d) := some x
 
-/-- `Tensor.fromYAMLfile` (after fix a24e1eb both legs pass the name on). -/
-def tensorLoad {d : Nat} (x : TDict κ ν d) : Option (TRep κ ν d) :=
+/-- `Tensor.parse` + `Tensor.fromYAMLfile`: the fibers are rebuilt by `dict2fiber` with the
+    file's default (`zero` when the file has no entry), which also becomes the tensor's. -/
+def tensorLoad {d : Nat} (zero : ν) (x : TDict κ ν d) : Option (TRep κ ν d) :=
   match dict2fiber d x.root with
-  | some r => some { rankIds := x.rankIds, shape := x.shape,
-                     name := x.name, root := r }
+  | some r => some { rankIds := x.rankIds, shape := x.shape, name := x.name, root := r,
+                     dflt := x.dflt.getD zero }
   | none => none
 
 /-- dump → text → load -/
-def tensorYamlRoundtrip {d : Nat} (plain : κ → Bool) (t : TRep κ ν d) : Option (TRep κ ν d) :=
-  match yamlText plain (tensorDump t) (allCoords plain d t.root) with
-  | some x => tensorLoad x
+def tensorYamlRoundtrip {d : Nat} (zero : ν) (t : TRep κ ν d) : Option (TRep κ ν d) :=
+  match yamlText (tensorDump t) with
+  | some x => tensorLoad zero x
   | none => none
 
-/-- `Fiber.dump` → text → `Fiber.fromYAMLfile` (a fiber has at least one level) -/
-def fiberYamlRoundtrip (plain : κ → Bool) (d : Nat) (t : Tree κ ν (d + 1)) : Option (Tree κ ν (d + 1)) :=
-  if allCoords plain (d + 1) t then dict2fiber (d + 1) (fiber2dict (d + 1) t) else none
-
-/-- leaf default of the reloaded object: the YAML file carries no default, a loaded
-    tensor has 0; `Fiber.fromYAMLfile(file, default=x)` gives `x` to the root only, the
-    nested fibers come from `dict2fiber` with default 0. -/
-def loadedLeafDefault (zero : ν) (isTensor : Bool) (d : Nat) (given : ν) : ν :=
-  if isTensor then zero else if d = 1 then given else zero
+/-- `Fiber.dump` → text → `Fiber.fromYAMLfile(file, default=x)`: the stored tree comes
+    back; every fiber of the result has default `x` (`Fiber.parse` hands it to
+    `dict2fiber`), so its leaf default is `x`. -/
+def fiberYamlRoundtrip (d : Nat) (t : Tree κ ν (d + 1)) : Option (Tree κ ν (d + 1)) :=
+  dict2fiber (d + 1) (fiber2dict (d + 1) t)
 
 /-- `Tensor.__eq__` -/
 def tensorEqB [LT κ] [DecidableRel (α := κ) (· < ·)] [DecidableEq κ] [DecidableEq ν] {d : Nat}
